@@ -92,6 +92,7 @@ func (engine) Generate(prop, tier string, seed uint64, faults bool) sim.Plan {
 
 func (e engine) Execute(prop string, plan sim.Plan, seed uint64, res *sim.RunResult) {
 	p := plan.(*Plan)
+	debugLogging = p.Debug
 	setupProcess()
 	res.Ops = len(p.Ops)
 	res.Sample = planSummary(p)
